@@ -1012,3 +1012,11 @@ mod tests {
         assert_eq!(&buf[3], "baz");
     }
 }
+
+// Verification hooks (add-only): inert unless built by Kani or with `--cfg indicatif_verif`.
+#[cfg(kani)]
+#[path = "/verif/kani/style.rs"]
+mod verif_kani;
+#[cfg(indicatif_verif)]
+#[path = "/verif/hooks/style.rs"]
+pub mod verif_hooks;
